@@ -110,3 +110,49 @@ package parser
 
 //@ func NewFieldParser
 //@   ensures fresh_parser: result != nil && fresh(result) && allocated(result) && result.data == data && result.err == nil && !result.started && !result.keepComments && !result.removeBOM
+
+// ---------------------------------------------------------------------------------------------------------
+// verif_lemmas.go: what the decoder makes of the lines the encoder writes (C02, C15)
+// ---------------------------------------------------------------------------------------------------------
+
+//@ func lemmaLineSplit
+//@   requires singleLine(prefix) && singleLine(x)
+//@   ensures newline_is_where_it_was_written: (prefix + x + "\n" + rest)[len(prefix) + len(x)] == 10
+//@   ensures line_ends_at_the_written_newline: (prefix + x + "\n" + rest)[len(prefix) + len(x)] == 10 ==> len(chunk) == len(prefix) + len(x)
+//@   ensures line_is_prefix_and_payload: len(chunk) == len(prefix) + len(x) ==> eqbytes(chunk, prefix + x)
+//@   ensures rest_is_untouched: len(chunk) == len(prefix) + len(x) ==> hasNewline && eqbytes(remaining, rest)
+
+//@ func lemmaBlankLine
+//@   ensures blank_line_consumed: len(chunk) == 0 && hasNewline
+//@   ensures rest_is_untouched: ("\n" + rest)[0] == 10 ==> eqbytes(remaining, rest)
+
+//@ func lemmaScanData
+//@   requires f != nil && out != nil && singleLine(x)
+//@   modifies out.Name, out.Value
+//@   ensures decodes_to_data_field: result && out.Name == "data" && eqbytes(out.Value, x)
+
+//@ func lemmaScanEvent
+//@   requires f != nil && out != nil && singleLine(x)
+//@   modifies out.Name, out.Value
+//@   ensures decodes_to_event_field: result && out.Name == "event" && eqbytes(out.Value, x)
+
+//@ func lemmaScanID
+//@   requires f != nil && out != nil && singleLine(x)
+//@   modifies out.Name, out.Value
+//@   ensures decodes_to_id_field: result && out.Name == "id" && eqbytes(out.Value, x)
+
+//@ func lemmaScanRetry
+//@   requires f != nil && out != nil && singleLine(x)
+//@   modifies out.Name, out.Value
+//@   ensures decodes_to_retry_field: result && out.Name == "retry" && eqbytes(out.Value, x)
+
+//@ func lemmaScanComment
+//@   requires f != nil && out != nil && singleLine(x)
+//@   modifies out.Name, out.Value
+//@   ensures comment_ignored_unless_kept: result == f.keepComments
+//@   ensures decodes_to_comment_field: f.keepComments ==> out.Name == ":" && eqbytes(out.Value, x)
+
+//@ func lemmaScanBlank
+//@   requires f != nil && out != nil
+//@   modifies out.Name, out.Value
+//@   ensures decodes_to_dispatch_marker: result && out.Name == "" && out.Value == ""
